@@ -17,7 +17,8 @@ RULE = (
 ASSUMPTIONS = ["EXCHANGE_LIFETIME and EMPTY_ACK_DELAY are read from the library's default TransportTuning at run time"]
 REQUIRED_MONITORS = {"epoch_once": 300, "dup_con_reanswer": 200, "dup_non_silent": 50, "after_lifetime_new": 30, "same_mid_other_endpoint": 50, "mid_collision": 4, "id_used_before_for_a_non_request": 20, "transport_error_between_copies": 100}
 
-KINDS = ["fast", "slow", "fail", "noresp", "notfound", "nr-other-class", "nr-other-class-slow", "nr-fail"]
+# kept / kept-slow: a resource that keeps its response and returns the same Message object for every request
+KINDS = ["fast", "slow", "fail", "noresp", "notfound", "nr-other-class", "nr-other-class-slow", "nr-fail", "kept", "kept", "kept-slow"]
 OFFS = {
     "instant": 0.0,
     "pre-ack": 0.0303,
@@ -87,7 +88,7 @@ def build(spec, variant="copy"):
         tok = tok + b"\xee"
     path = b"r"
     # nr-*: the request carries a No-Response option that does NOT cover the class of the response it draws
-    payload = {"fast": b"d=0;c=69;p=f", "slow": b"d=1.0;c=69;p=s", "noresp": b"d=0;c=69;p=n", "fail": b"", "notfound": b"", "nr-other-class": b"d=0;c=128;p=e", "nr-other-class-slow": b"d=1.0;c=69;p=t", "nr-fail": b""}[kind]
+    payload = {"fast": b"d=0;c=69;p=f", "slow": b"d=1.0;c=69;p=s", "noresp": b"d=0;c=69;p=n", "fail": b"", "notfound": b"", "nr-other-class": b"d=0;c=128;p=e", "nr-other-class-slow": b"d=1.0;c=69;p=t", "nr-fail": b"", "kept": b"d=0;c=69;p=k;x=cached", "kept-slow": b"d=1.0;c=69;p=k;x=cached"}[kind]
     opts = []
     if kind == "fail":
         path = b"boom"
@@ -104,7 +105,7 @@ def build(spec, variant="copy"):
         path = b"boom"
         opts[0] = (11, path)
         opts.append((258, b"\x02"))  # not interested in 2.xx; the handler raises -> 5.00
-    code = 2 if kind in ("fast", "slow", "noresp", "nr-other-class", "nr-other-class-slow") else 1
+    code = 2 if kind in ("fast", "slow", "noresp", "nr-other-class", "nr-other-class-slow", "kept", "kept-slow") else 1
     return rc.Msg(spec["type"], code, spec["mid"], tok, tuple(opts), payload)
 
 
